@@ -257,7 +257,7 @@ func (g *fileGen) embedHeavy(used map[string]bool) {
 	}
 	var leaves []string // messages without message-typed or custom fields: referencing them cannot close a cycle
 	for _, m := range f.Messages {
-		leaf := len(m.Fields) > 0 && !g.hasCustom[m.Name]
+		leaf := !g.hasCustom[m.Name] // messages without fields included (finding F13: held by value below a nullable embedded parent)
 		for _, fl := range m.Fields {
 			if fl.Kind == ir.KMessage {
 				leaf = false
